@@ -117,7 +117,7 @@ def draw_obs(draw, domains, variables, min_size=1, max_size=None):
         if d[0] == "d":
             obs.append([v, draw(st.integers(0, d[1] - 1))])
         else:
-            obs.append([v, draw(st.sampled_from([-1.5, -0.25, 0.0, 0.5, 1.25]))])
+            obs.append([v, draw(st.sampled_from([-1.5, -0.25, 0.0, 0.5, 1.25, 1, -2]))])  # floats and Python ints
     return obs
 
 
